@@ -151,11 +151,11 @@ Proof.
   - vm_compute in Hc. inversion Hc; subst rxns. vm_compute. reflexivity.
 Qed.
 
-(* label_variables = {A: 0}, initial_labels = {A: []}: the amount goes to the stray name "A__" *)
+(* label_variables = {A: 0}, initial_labels = {A: []}: with the PRE-REPAIR naming the amount goes to the stray name "A__" *)
 Theorem zero_label_initial_refuted :
   exists (lv : label_vars) (init : init_labels) (bvars : list (N * Z)) (c : N) (v : Z) (n : nat),
     NoDup (map fst bvars) /\ NoDup (map fst lv) /\ In (c, v) bvars /\ getN c lv = Some n /\
-    sumZ (map (fun bits => match getL (iso_name c bits) (build_vars lv init bvars) with Some x => x | None => 0%Z end)
+    sumZ (map (fun bits => match getL (iso_name c bits) (build_vars InitRawSuffix lv init bvars) with Some x => x | None => 0%Z end)
               (all_patterns n)) <> v.
 Proof.
   exists [(1%N, 0)], [(1%N, IList [])], [(1%N, 4%Z)], 1%N, 4%Z, 0.
@@ -192,10 +192,10 @@ Proof.
 Qed.
 
 (** a short map anywhere in label_maps makes build_model fail *)
-Lemma build_short_map_rejected ext_bit lv lmaps init bm r lmap :
+Lemma build_short_map_rejected ext_bit ik lv lmaps init bm r lmap :
   In r (b_rxns bm) -> getN (r_name r) lmaps = Some lmap ->
   length lmap < total (labels_per lv (subs_of (r_stoich r))) ->
-  exists e, build_iso ext_bit lv lmaps init bm = Err e.
+  exists e, build_iso ext_bit ik lv lmaps init bm = Err e.
 Proof.
   intros Hin Hm Hshort. unfold build_iso.
   destruct (collect_map_err
